@@ -1,6 +1,7 @@
 import Restli.Model.TreeReader
 import Restli.Proofs.NoPanic
 import Restli.Proofs.MissingSpec
+import Restli.Proofs.AnyReader
 /-! # C06 — required-field accounting and unknown-field tolerance
 
 Every reader finishes a record through `finishRecord` (the model of `readRecord`'s epilogue in
@@ -126,6 +127,14 @@ theorem c06_missing_is_exactly_the_spec (c : TCfg) (hc : SemClean c.sem) (t : Js
 /-- … the JSON reader and the ROR2 readers are two instances (same code path after the leaves) -/
 theorem c06_json_and_ror2_leaves_report_nothing (plus : Bool) : SemClean jsonSem ∧ SemClean (ror2Sem plus) :=
   ⟨jsonSem_clean, ror2Sem_clean plus⟩
+
+/-- … and the untyped-value reader (`any_reader.go`) is a third: its leaves report nothing either,
+so on every Go value what it reports as missing is the specification's list for the value's tree -/
+theorem c06_untyped_reader_reports_the_spec (env : Env) (tr : Tracker) (av : AnyVal) (scope : List Seg)
+    (ty : Ty) (v : Value) (m : List Bytes)
+    (h : treeRead { env := env, tracker := tr, sem := anySem } false scope ty (anyToTree false av) = .ok v m) :
+    m = specMissing { env := env, tracker := tr, sem := anySem } scope ty (anyToTree false av) :=
+  read_missing _ anySem_clean _ scope ty v m h
 
 /-- **top level**: when the members decode, the outcome is decided by the specification's list:
 empty ⇒ the value (own defaults filled), nothing reported; non-empty ⇒ one
